@@ -383,7 +383,7 @@ const TESTDATA: &str = "/repo/resources/testdata";
 /// (label, paths under testdata to copy, entry path)
 const REAL_BASES: &[(&str, &[&str], &str)] = &[
     ("wght_var.designspace", &["wght_var.designspace", "WghtVar-Regular.ufo", "WghtVar-Bold.ufo"], "wght_var.designspace"),
-    ("static.designspace", &["static.designspace", "Static-Regular.ufo"], "static.designspace"),
+    ("static.designspace", &["static.designspace", "Static-Regular.ufo", "static.fea"], "static.designspace"),
     ("glyphs3/WghtVar.glyphs", &["glyphs3/WghtVar.glyphs"], "glyphs3/WghtVar.glyphs"),
     ("glyphs2/WghtVar.glyphs", &["glyphs2/WghtVar.glyphs"], "glyphs2/WghtVar.glyphs"),
     ("glyphs3/NestedComponent.glyphs", &["glyphs3/NestedComponent.glyphs"], "glyphs3/NestedComponent.glyphs"),
@@ -392,7 +392,8 @@ const REAL_BASES: &[(&str, &[&str], &str)] = &[
     ("WghtVar-Regular.ufo", &["WghtVar-Regular.ufo"], "WghtVar-Regular.ufo"),
     ("glyphs3/IntermediateLayer.glyphs", &["glyphs3/IntermediateLayer.glyphs"], "glyphs3/IntermediateLayer.glyphs"),
     ("glyphs3/WghtVar.glyphspackage", &["glyphs3/WghtVar.glyphspackage"], "glyphs3/WghtVar.glyphspackage"),
-    ("glyphs2/Fea_Feature.glyphs", &["glyphs2/Fea_Feature.glyphs"], "glyphs2/Fea_Feature.glyphs"),
+    ("glyphs3/Fea_Labels.glyphs", &["glyphs3/Fea_Labels.glyphs"], "glyphs3/Fea_Labels.glyphs"),
+    ("glyphs_fea_include", &["glyphs_fea_include"], "glyphs_fea_include/glyphs_include.glyphs"),
 ];
 
 pub const MUT_KINDS: [&str; 14] = ["xml-drop", "xml-dup", "plist-drop", "plist-dup", "number", "truncate", "bytes", "delete",
@@ -600,6 +601,7 @@ fn mutate_once(rng: &mut Rng, root: &Path, kind: &'static str) -> Option<MutLog>
             } else {
                 // one line
                 let starts: Vec<usize> = std::iter::once(0).chain(find_all(&b, b"\n").into_iter().map(|i| i + 1)).filter(|i| *i < b.len()).collect();
+                if starts.is_empty() { return None; }
                 let s = *rng.pick(&starts);
                 let e = b[s..].iter().position(|c| *c == b'\n').map(|k| s + k + 1).unwrap_or(b.len());
                 (s, e)
@@ -862,10 +864,12 @@ pub fn run_mut(args: &Args) {
         let tmp = build::tmpdir("c15mut");
         let src_root = tmp.path().join("src");
         fs::create_dir_all(&src_root).unwrap();
-        let k = rng.below(1 << 20);
+        // C15_PRISTINE=1: base number i, unmutated (checks that every base source builds)
+        let pristine_all = std::env::var("C15_PRISTINE").is_ok();
+        let k = if pristine_all { rng.below(1 << 20); i } else { rng.below(1 << 20) };
         let (label, entry) = make_base(&mut rng, k, &src_root);
         // every 16th case is the unmutated base (control: must build)
-        let n_muts = if i % 16 == 0 { 0 } else { match rng.below(20) { 0..=11 => 1, 12..=16 => 2, _ => 3 } };
+        let n_muts = if i % 16 == 0 || pristine_all { 0 } else { match rng.below(20) { 0..=11 => 1, 12..=16 => 2, _ => 3 } };
         let mut logs: Vec<MutLog> = vec![];
         let mut tries = 0;
         while logs.len() < n_muts && tries < 40 {
